@@ -159,8 +159,13 @@ def execute(sc):
         name_arg = {'list': lambda: list(prefix), 'tuple': lambda: tuple(prefix), 'uri': lambda: rc.name_to_uri(prefix, canonical=True),
                     'encoded': lambda: rc.enc_name(prefix), 'generator': lambda: (c for c in prefix), 'iterator': lambda: iter(list(prefix)),
                     'list-str': lambda: [rc.comp_to_canonical_uri(c) for c in prefix]}[form]()
+        kw = {'validator': validator}
+        if sc.get('validator_via') == 'app-default':
+            # no validator argument: the application-wide data validator is the one in force (documented default)
+            the_app.data_validator = validator
+            kw = {}
         try:
-            async for c in segment_fetcher(the_app, name_arg, timeout=100, retry_times=sc['retry'], validator=validator):
+            async for c in segment_fetcher(the_app, name_arg, timeout=100, retry_times=sc['retry'], **kw):
                 R['yielded'].append(None if c is None else bytes(c))
                 if len(R['yielded']) > 50:
                     R['outcome'] = 'runaway'
@@ -187,7 +192,8 @@ def gen_script(rng):
     retry = rng.choice([1, 2, 3])
     sc = {'n': n, 'retry': retry, 'version': rng.random() < 0.5, 'marker': rng.choice(['every', 'last', 'estimate']), 'fresh': rng.choice([10, 10, 0, None]),
           'disc_answer': rng.randrange(n) if n else 0, 'loss': {}, 'fault': None,
-          'name_form': rng.choice(['list', 'list', 'tuple', 'uri', 'encoded', 'generator', 'iterator', 'list-str'])}
+          'name_form': rng.choice(['list', 'list', 'tuple', 'uri', 'encoded', 'generator', 'iterator', 'list-str']),
+          'validator_via': rng.choice(['argument', 'argument', 'app-default'])}
     keys = ['disc'] + list(range(n))
     for k in keys:
         if rng.random() < 0.35:
@@ -230,6 +236,7 @@ def judge(ctx, sc, R, S):
     ctx.event('marker-' + sc['marker'])
     ctx.event('freshness-' + str(sc.get('fresh', 10)))
     ctx.event('name-form-' + sc.get('name_form', 'list'))
+    ctx.event('validator-via-' + sc.get('validator_via', 'argument'))
     if sc.get('name_form') in ('generator', 'iterator') and sc['loss'].get('disc'):
         ctx.event('one-shot-name-with-lost-discovery')
     ctx.case(repr(sorted(sc.items(), key=str)), nontrivial=sc['n'] > 1 or bool(sc['loss']) or bool(fault),
@@ -494,6 +501,6 @@ def run(ctx):
         obs, S = execute_concurrent(sc)
         judge_concurrent(ctx, sc, obs, S)
     for k in ('marker-estimate', 'freshness-None', 'freshness-0', 'outcome-done', 'outcome-timeout', 'outcome-nack', 'outcome-valfail', 'concurrent-fetch', 'concurrent-outcome-done', 'concurrent-outcome-timeout',
-              'concurrent-data-shared-between-fetchers', 'one-shot-name-with-lost-discovery'):
+              'concurrent-data-shared-between-fetchers', 'one-shot-name-with-lost-discovery', 'validator-via-app-default'):
         ctx.need_event(k)
     ctx.assumptions = ['an object without any final-block marker is outside the statement', 'the legacy front-end is the one segment_fetcher uses']
